@@ -15,6 +15,7 @@ pub mod c10;
 pub mod c07;
 pub mod c08;
 pub mod cx;
+pub mod cy;
 pub mod c20;
 pub mod c18;
 pub mod c04;
